@@ -399,13 +399,29 @@ func runColdStart(r *runner, work *choice.Source) (fs []Finding) {
 	// (few scheduling points inside Contains: dual contouring asks tens of thousands of times)
 	s3 := &simsolid.Solid3{S: shape3, Salt: salt, YieldEvery: 211}
 	s2 := &simsolid.Solid2{S: shape2, Salt: salt, YieldEvery: 53}
+	// a second solid on the very same lattice (same bounds, same spacing) but with
+	// different contents: calls that overlap must not see each other's samples
+	shape3b := *shape3
+	shape3b.Prims = append([]simsolid.Prim(nil), shape3.Prims...)
+	{
+		lo, hi := shape3.Bounds()
+		p := simsolid.Prim{Neg: true, Ball: true, R: 0.25 * (hi[0] - lo[0])}
+		for a := 0; a < 3; a++ {
+			p.C[a] = lo[a] + (0.3+0.4*work.Float())*(hi[a]-lo[a])
+		}
+		shape3b.Prims = append(shape3b.Prims, p)
+	}
+	s3b := &simsolid.Solid3{S: &shape3b, Salt: salt + 1, YieldEvery: 211}
 	ico := model3d.NewMeshIcosphere(model3d.XYZ(0, 0, 0), 1, 2)
 	k := 2 + work.Intn(3)
 	ops := make([]int, k)
 	for i := range ops {
-		ops[i] = work.Intn(7)
+		ops[i] = work.Intn(9)
 		if i > 0 && work.Chance(1, 2) {
 			ops[i] = ops[0] // the same entry point from several callers
+			if ops[0] == 0 || ops[0] == 1 {
+				ops[i] = ops[0] + 7 // ... on the other solid of the same lattice
+			}
 		}
 	}
 	workers := 1 + work.Intn(8)
@@ -413,7 +429,7 @@ func runColdStart(r *runner, work *choice.Source) (fs []Finding) {
 	r.st.Workers = workers
 	r.st.Desc = fmt.Sprintf("coldstart callers=%v workers=%d", ops, workers)
 	for _, op := range ops {
-		if op == 1 || op == 3 {
+		if op == 1 || op == 3 || op == 8 {
 			r.st.MapDep = "mcSearch/msSearch walk Mesh.VertexSlice(), whose order is the iteration order of the vertex index (a Go map)"
 		}
 	}
@@ -430,6 +446,10 @@ func runColdStart(r *runner, work *choice.Source) (fs []Finding) {
 		case 4:
 			img := (&model2d.Rasterizer{Scale: 12}).RasterizeSolid(s2)
 			return wproto.Hash(img.Pix)
+		case 7:
+			return c12.Canon3(model3d.MarchingCubes(s3b, shape3.Delta))
+		case 8:
+			return c12.Canon3(model3d.MarchingCubesSearch(s3b, shape3.Delta, 2))
 		case 5:
 			sdf := model3d.MeshToSDF(ico)
 			return fmt.Sprint(fb(sdf.SDF(model3d.XYZ(0.1, 0.2, 0.3))), fb(sdf.SDF(model3d.XYZ(2, 0, 0))), model3d.MeshToCollider(ico).SphereCollision(model3d.XYZ(0, 0, 0.9), 0.3))
